@@ -152,7 +152,19 @@ def _eval_merge(case):
     kws = kw(case, "broadcast", "npartitions", "shuffle_method")
     how = case["how"]
     try:
-        if case.get("on_index"):
+        if how == "leftsemi":
+            # pandas has no semi join: the rows of the left input whose key occurs on the right, each once
+            Ld, Rd = tables.dask_dtypes(L), tables.dask_dtypes(R)
+            if case.get("on_index"):
+                Li = Ld.set_index("a")
+                exp = Li[Li.index.isin(Rd["a"])]
+                q = x.set_index("a").merge(y.set_index("a"), left_index=True, right_index=True, how=how, **kws)
+                labelled = True
+            else:
+                exp = Ld[Ld["a"].isin(Rd["a"])]
+                q = x.merge(y, on="a", how=how, **kws)
+                labelled = False
+        elif case.get("on_index"):
             exp = tables.dask_dtypes(L).set_index("a").merge(tables.dask_dtypes(R).set_index("a"), left_index=True, right_index=True, how=how, suffixes=("_l", "_r"))
             q = x.set_index("a").merge(y.set_index("a"), left_index=True, right_index=True, how=how, suffixes=("_l", "_r"), **kws)
             labelled = True
@@ -246,8 +258,8 @@ def run(ctx):
         for mb in (U, 2, 3, 4, 8):
             for npart in (U, 2, 7):
                 cases.append({"t": "shuffle_gb", "n": n, "max_branch": mb, "npartitions": npart, "shuffle_method": "tasks"})
-    for how in ("inner", "left", "right", "outer"):
-        for (nl, nr) in ((1, 1), (1, 4), (3, 2), (6, 2), (2, 9), (12, 3), (12, 1), (5, 5)):
+    for how in ("inner", "left", "right", "outer", "leftsemi"):
+        for (nl, nr) in ((1, 1), (1, 4), (3, 2), (6, 2), (2, 9), (12, 3), (12, 1), (5, 5), (1, 9)):
             for b in (U, True, False, 0.1, 2.0):
                 for npart in (U, 1, 2, 5):
                     for m in (U, "tasks", "disk"):
